@@ -249,6 +249,12 @@ def run(ctx):
         want = {"fisher": -2 * sum(math.log(v) for v in p), "liptak": float(sum(norm.ppf(1 - v) for v in p)),
                 "tippett": max(1 - v for v in p), "inverse_n_weight": -sum(v / math.sqrt(float(s)) for v, s in zip(p, size))}
         ctx.case(("comb", tuple(p), tuple(size)), True); ctx.count("combiner-formulas")
+        if ctx.rng.random() < 0.3:      # one common sample size given as a scalar (int, float, 0-d array): still the weighted *sum*
+            sc_ = ctx.rng.choice([4, 9.0, np.int64(16), np.array(25.0), np.float32(7)])
+            vs_ = guarded(npc.inverse_n_weight, p, sc_); ws_ = -sum(v / math.sqrt(float(sc_)) for v in p); ctx.count("inverse_n_weight-scalar-size")
+            if vs_[0] != "ok" or np.ndim(vs_[1]) != 0 or abs(float(vs_[1]) - ws_) > 1e-6 * max(1, abs(ws_)):
+                ctx.violation("oracle", {"call": "inverse_n_weight", "pvalues": p.tolist(), "size": repr(sc_), "returned": str(vs_[1:])[:120], "expected": ws_,
+                                         "issue": "with one common sample size the statistic is not the scalar -sum(p)/sqrt(size)"}, site="inverse_n_weight")
         i = ctx.rng.randrange(n); q = p.copy(); q[i] = min(0.9995, q[i] + ctx.rng.choice([0.0005, 0.01, 0.2]))
         vals2 = {"fisher": guarded(npc.fisher, q), "liptak": guarded(npc.liptak, q), "tippett": guarded(npc.tippett, q),
                  "inverse_n_weight": guarded(npc.inverse_n_weight, q, size)}
